@@ -259,15 +259,29 @@ func (seg *Segment) Match(ctx *types.Context) bool {
 			}
 		}
 	case Regexp:
-		if seg.ignoreName {
-			if loc := seg.expr.FindStringIndex(ctx.Path); loc != nil && loc[0] == 0 {
-				ctx.Path = ctx.Path[loc[1]:]
+		// 与拦截器相同：取规则能完整接受且之后紧跟 Suffix 的最短内容，
+		// 而不是由正则表达式贪婪地吞掉之后的 Suffix，比如 {x:.+}/b 之于 1/b/b 取 1 而非 1/b。
+		index := len(ctx.Path) // 以该参数结尾，需要匹配剩余的全部内容。
+		if seg.Suffix != "" {
+			index = strings.Index(ctx.Path, seg.Suffix)
+		}
+		for index >= 0 {
+			if val := ctx.Path[:index]; seg.whole.MatchString(val) {
+				if !seg.ignoreName {
+					ctx.Set(seg.Name, val)
+				}
+				ctx.Path = ctx.Path[index+len(seg.Suffix):]
 				return true
 			}
-		} else if loc := seg.expr.FindStringSubmatchIndex(ctx.Path); loc != nil && loc[0] == 0 {
-			ctx.Set(seg.Name, ctx.Path[:loc[3]]) // 只有 ignoreName == false，才会有捕获的值
-			ctx.Path = ctx.Path[loc[1]:]
-			return true
+
+			if seg.Suffix == "" {
+				return false
+			}
+			i := strings.Index(ctx.Path[index+1:], seg.Suffix) // 下一个可能的位置，可以与当前位置重叠。
+			if i < 0 {
+				return false
+			}
+			index += i + 1
 		}
 	}
 
